@@ -445,15 +445,37 @@ class Tables:
                             self.rebuild_stores.append((f, n, n.value))
                         elif isinstance(t, ast.Subscript) and isinstance(t.value, ast.Attribute) and t.value.attr in (SINKS, STATICS, TABLE):
                             self.other_writes.append((t.value.attr, f, n))
+                elif isinstance(n, ast.Delete):
+                    for t in n.targets:
+                        tv = t.value if isinstance(t, ast.Subscript) else t
+                        if isinstance(tv, ast.Attribute) and tv.attr in (SINKS, STATICS, TABLE):
+                            self.other_writes.append((tv.attr, f, n))
         for which in (SINKS, STATICS):
             if not [i for i in self.insertions if i[0] == which]:
                 raise AnchorError('no insertion into App.%s found' % which)
+        # a rebuilder: a function that stores a non-empty-literal value into the
+        # combined table and READS both lists (in the stored expression or through
+        # locals: `routes = self._sinks + self._static_routes; ...; self.T = tuple(routes)`)
         self.rebuilders: Dict[str, Func] = {}
         for (f, stmt, v) in self.rebuild_stores:
-            if v is not None and any(_attr_named(x, SINKS) for x in ast.walk(v)) and any(_attr_named(x, STATICS) for x in ast.walk(v)):
+            if v is None or (isinstance(v, (ast.Tuple, ast.List)) and not v.elts):
+                continue
+            if self._reads(f, 0, set()) == {SINKS, STATICS}:
                 self.rebuilders[f.qual] = f
         if not self.rebuilders:
             raise AnchorError('no function rebuilds App.%s from both lists' % TABLE)
+
+    def _reads(self, f: Func, depth: int, seen: Set[str]) -> Set[str]:
+        """which of the two lists f reads, directly or through same-module callees (depth <= 3)"""
+        seen.add(f.qual)
+        out = {x.attr for x in walk_no_nested(f.node) if isinstance(x, ast.Attribute) and x.attr in (SINKS, STATICS) and isinstance(x.ctx, ast.Load)}
+        if depth < 3:
+            for c in walk_no_nested(f.node):
+                if isinstance(c, ast.Call):
+                    g = self.p.callee(f, c)
+                    if isinstance(g, Func) and g.qual not in seen and g.module is f.module:
+                        out |= self._reads(g, depth + 1, seen)
+        return out
 
     @staticmethod
     def _assign_polarity(attr, n) -> Optional[str]:
@@ -467,6 +489,11 @@ class Tables:
                 return 'head'
             if isinstance(r, (ast.List, ast.Tuple)) and _attr_named(l, attr):
                 return 'tail'
+        if isinstance(v, ast.List) and len(v.elts) == 2 and sum(isinstance(x, ast.Starred) for x in v.elts) == 1:
+            # [entry, *self.L] (head) / [*self.L, entry] (tail)
+            star = [x for x in v.elts if isinstance(x, ast.Starred)][0]
+            if _attr_named(star.value, attr):
+                return 'head' if v.elts[1] is star else 'tail'
         return None
 
 
@@ -478,17 +505,370 @@ def _tables(run) -> Tables:
     return t
 
 
-def _store_values(f: Func, stmt, value) -> List[Tuple[Optional[bool], ast.AST]]:
-    """[(flag truth required by an enclosing conditional expression, value)]."""
-    if isinstance(value, ast.IfExp):
-        r = edge_truth(value.test, True, _pred_classifier(lambda e: _attr_named(e, FLAG)))
-        if r is None:
-            raise UnknownIdiom('%s: conditional rebuild not on the order flag: %s' % (f.qual, short(value.test)))
-        return [(r, value.body), (not r, value.orelse)]
-    return [(None, value)]
+# --- the rebuild of the combined table, evaluated on symbolic lists ------------
+
+class _OpaqueValue:
+    def __repr__(self):
+        return '<opaque>'
+
+
+_OPAQUE = _OpaqueValue()
+_TRACKED_ATTRS = (SINKS, STATICS, TABLE, FLAG)
+_CHAIN = ('itertools.chain',)
+
+
+class _Stop(Exception):
+    """return / raise reached while evaluating a function body."""
+
+    def __init__(self, kind, value=None):
+        self.kind, self.value = kind, value
+
+
+class RebuildEval:
+    """Concrete evaluation of a function that rebuilds App._sink_and_static_routes
+    on SYMBOLIC registration lists (lists of tokens) for one value of the order
+    option.  The lists are real Python lists, so aliasing (`routes = self._sinks;
+    routes.reverse()`) behaves as at run time.
+
+    Reads: assignments to locals / to the table / to the lists, `+`, `+=`,
+    list()/tuple()/reversed()/itertools.chain(), displays with `*`, constant
+    slices and indexes, `.reverse() .extend() .append() .insert() .copy()` of a
+    tracked list, conditional expressions, if/else over the option (and / or /
+    not / `is True`), identity comprehensions, and calls of package functions
+    without side conditions (looked through, depth <= 3).  Statements that
+    mention neither the lists, the table, the option nor a local computed from
+    them are skipped.  Anything else that touches them is UnknownIdiom."""
+
+    def __init__(self, p, lists: Dict[str, list], flag: bool):
+        self.p = p
+        self.state = {SINKS: lists[SINKS], STATICS: lists[STATICS], FLAG: flag}
+        self.table = None
+        self.table_stmt = None
+        self.table_func: Optional[Func] = None
+        self.fresh = 0
+
+    # -- helpers
+    def unknown(self, f: Func, e, why='is outside the evaluator of the table rebuild'):
+        return UnknownIdiom('%s: %s %s' % (f.qual, short(e, 90), why))
+
+    def tracked(self, f: Func, node, env) -> bool:
+        for x in ast.walk(node):
+            if isinstance(x, ast.Attribute) and x.attr in _TRACKED_ATTRS:
+                return True
+            if isinstance(x, ast.Name) and x.id in env and env[x.id] is not _OPAQUE:
+                return True
+            if isinstance(x, ast.Call):
+                g = self.p.callee(f, x)
+                if isinstance(g, Func) and g is not f and any(isinstance(y, ast.Attribute) and y.attr in _TRACKED_ATTRS for y in ast.walk(g.node)):
+                    return True
+        return False
+
+    def run(self, f: Func, args=(), depth=0):
+        """Evaluate f's body; -> its return value."""
+        if depth > 3:
+            raise UnknownIdiom('%s: helper chain of the table rebuild is deeper than 3' % f.qual)
+        a = f.node.args
+        if a.vararg or a.kwarg or a.kwonlyargs or f.is_async:
+            raise UnknownIdiom('%s: signature of a function on the table-rebuild path' % f.qual)
+        params = f.params()
+        env: Dict[str, object] = {}
+        self_name = params[0] if (f.cls is not None and params and 'staticmethod' not in f.decorators) else None
+        rest = params[1:] if self_name else params
+        n_def = len(a.defaults)
+        if len(args) > len(rest) or (depth > 0 and len(args) < len(rest) - n_def):
+            raise UnknownIdiom('%s: called with %d argument(s) on the table-rebuild path' % (f.qual, len(args)))
+        for i, name in enumerate(rest):
+            env[name] = args[i] if i < len(args) else _OPAQUE
+        try:
+            self.block(f, f.node.body, env, self_name, depth)
+        except _Stop as st:
+            if st.kind == 'raise':
+                raise UnknownIdiom('%s: the table rebuild raises on an evaluated path' % f.qual)
+            return st.value
+        return None
+
+    # -- statements
+    def block(self, f, stmts, env, me, depth):
+        for s in stmts:
+            self.stmt(f, s, env, me, depth)
+
+    def stmt(self, f, s, env, me, depth):
+        tr = self.tracked(f, s, env)
+        if isinstance(s, ast.Pass) or (isinstance(s, ast.Expr) and isinstance(s.value, ast.Constant)):
+            return
+        if isinstance(s, ast.Return):
+            raise _Stop('return', self.ev(f, s.value, env, me, depth) if (s.value is not None and tr) else (None if s.value is None else _OPAQUE))
+        if isinstance(s, ast.Raise):
+            raise _Stop('raise')
+        if isinstance(s, ast.If):
+            if self.tracked(f, s.test, env):
+                c = self.ev(f, s.test, env, me, depth)
+                if c is _OPAQUE:
+                    raise self.unknown(f, s.test, 'decides a branch of the table rebuild but cannot be evaluated')
+                self.block(f, s.body if c else s.orelse, env, me, depth)
+            elif tr:
+                raise self.unknown(f, s.test, 'guards a statement of the table rebuild and is not a condition on the order option')
+            return
+        if isinstance(s, (ast.Assign, ast.AnnAssign)):
+            if s.value is None:
+                return
+            targets = s.targets if isinstance(s, ast.Assign) else [s.target]
+            if not tr:
+                if isinstance(s.value, (ast.List, ast.Tuple)) and not s.value.elts and all(isinstance(t, ast.Name) for t in targets):
+                    for t in targets:
+                        env[t.id] = [] if isinstance(s.value, ast.List) else ()      # an accumulator the rebuild may fill
+                return
+            v = self.ev(f, s.value, env, me, depth) if self.tracked(f, s.value, env) else _OPAQUE
+            for t in targets:
+                self.bind(f, t, v, env, me, s)
+            return
+        if isinstance(s, ast.AugAssign):
+            if not tr:
+                return
+            if not isinstance(s.op, ast.Add):
+                raise self.unknown(f, s)
+            cur = self.ev(f, s.target, env, me, depth)
+            v = self.ev(f, s.value, env, me, depth)
+            if isinstance(cur, list) and isinstance(v, (list, tuple)):
+                cur.extend(v)              # in place, like list.__iadd__
+                return
+            if isinstance(cur, tuple) and isinstance(v, tuple):
+                self.bind(f, s.target, cur + v, env, me, s)
+                return
+            raise self.unknown(f, s)
+        if isinstance(s, ast.Expr):
+            if tr:
+                self.ev(f, s.value, env, me, depth)
+            return
+        if tr:
+            raise self.unknown(f, s, 'is a statement the evaluator of the table rebuild does not read')
+
+    def bind(self, f, t, v, env, me, stmt):
+        if isinstance(t, ast.Name):
+            env[t.id] = v
+            return
+        if isinstance(t, ast.Attribute) and isinstance(t.value, ast.Name) and t.value.id == me:
+            if t.attr == TABLE:
+                if v is _OPAQUE:
+                    raise self.unknown(f, stmt, 'stores a value the evaluator cannot compute')
+                self.table, self.table_stmt, self.table_func = v, stmt, f
+                return
+            if t.attr in (SINKS, STATICS):
+                if v is _OPAQUE:
+                    raise self.unknown(f, stmt, 'stores a value the evaluator cannot compute')
+                self.state[t.attr] = v
+                return
+            if t.attr == FLAG:
+                raise self.unknown(f, stmt, 'writes the order option')
+            if v is _OPAQUE:
+                return
+        if isinstance(t, (ast.Tuple, ast.List)) and isinstance(v, (tuple, list)) and len(v) == len(t.elts) and not any(isinstance(x, ast.Starred) for x in t.elts):
+            for (x, y) in zip(t.elts, v):
+                self.bind(f, x, y, env, me, stmt)
+            return
+        raise self.unknown(f, stmt, 'has an assignment target the evaluator of the table rebuild does not read')
+
+    # -- expressions
+    def ev(self, f, e, env, me, depth):
+        if isinstance(e, ast.Constant):
+            return e.value
+        if isinstance(e, ast.Name):
+            if e.id in env:
+                v = env[e.id]
+                if v is _OPAQUE:
+                    raise self.unknown(f, e, 'is not computed from the registration lists')
+                return v
+            raise self.unknown(f, e, 'is not a local computed from the registration lists')
+        if isinstance(e, ast.Attribute):
+            if isinstance(e.value, ast.Name) and e.value.id == me and me is not None:
+                if e.attr in self.state:
+                    return self.state[e.attr]
+                if e.attr == TABLE and self.table is not None:
+                    return self.table
+            raise self.unknown(f, e)
+        if isinstance(e, ast.Starred):
+            raise self.unknown(f, e)
+        if isinstance(e, (ast.Tuple, ast.List)):
+            out = []
+            for x in e.elts:
+                if isinstance(x, ast.Starred):
+                    v = self.ev(f, x.value, env, me, depth)
+                    if not isinstance(v, (list, tuple)):
+                        raise self.unknown(f, x)
+                    out.extend(v)
+                else:
+                    out.append(self.ev(f, x, env, me, depth))
+            return tuple(out) if isinstance(e, ast.Tuple) else out
+        if isinstance(e, ast.BinOp) and isinstance(e.op, ast.Add):
+            a, b = self.ev(f, e.left, env, me, depth), self.ev(f, e.right, env, me, depth)
+            if (isinstance(a, list) and isinstance(b, list)) or (isinstance(a, tuple) and isinstance(b, tuple)):
+                return a + b
+            raise self.unknown(f, e, 'concatenates values of different sequence types')
+        if isinstance(e, ast.Subscript):
+            v = self.ev(f, e.value, env, me, depth)
+            if not isinstance(v, (list, tuple)):
+                raise self.unknown(f, e)
+            sl = e.slice
+            if isinstance(sl, ast.Slice):
+                idx = slice(*[None if x is None else self.int_of(f, x, env, me, depth) for x in (sl.lower, sl.upper, sl.step)])
+            else:
+                idx = self.int_of(f, sl, env, me, depth)
+            try:
+                return v[idx]
+            except (IndexError, ValueError):
+                raise self.unknown(f, e, 'indexes outside the symbolic list')
+        if isinstance(e, ast.IfExp):
+            c = self.ev(f, e.test, env, me, depth)
+            return self.ev(f, e.body if c else e.orelse, env, me, depth)
+        if isinstance(e, ast.BoolOp):
+            v = None
+            for x in e.values:
+                v = self.ev(f, x, env, me, depth)
+                if bool(v) != isinstance(e.op, ast.And):
+                    return v
+            return v
+        if isinstance(e, ast.UnaryOp) and isinstance(e.op, ast.Not):
+            return not self.ev(f, e.operand, env, me, depth)
+        if isinstance(e, ast.Compare) and len(e.ops) == 1 and isinstance(e.ops[0], (ast.Is, ast.IsNot, ast.Eq, ast.NotEq)):
+            a, b = self.ev(f, e.left, env, me, depth), self.ev(f, e.comparators[0], env, me, depth)
+            if not all(isinstance(x, bool) or x is None for x in (a, b)):
+                raise self.unknown(f, e)
+            r = (a is b) if isinstance(e.ops[0], (ast.Is, ast.IsNot)) else (a == b)
+            return r if isinstance(e.ops[0], (ast.Is, ast.Eq)) else (not r)
+        if isinstance(e, (ast.ListComp, ast.GeneratorExp)):
+            if len(e.generators) == 1 and not e.generators[0].ifs and not e.generators[0].is_async and isinstance(e.elt, ast.Name) \
+                    and isinstance(e.generators[0].target, ast.Name) and e.elt.id == e.generators[0].target.id:
+                v = self.ev(f, e.generators[0].iter, env, me, depth)
+                if isinstance(v, (list, tuple)):
+                    return list(v)
+            raise self.unknown(f, e, 'is a comprehension that filters or transforms the entries')
+        if isinstance(e, ast.Call):
+            return self.call(f, e, env, me, depth)
+        raise self.unknown(f, e)
+
+    def int_of(self, f, e, env, me, depth):
+        """a position: an int constant, -constant, len(<tracked list>), +/- of those"""
+        if isinstance(e, ast.UnaryOp) and isinstance(e.op, ast.USub):
+            return -self.int_of(f, e.operand, env, me, depth)
+        if isinstance(e, ast.BinOp) and isinstance(e.op, (ast.Add, ast.Sub)):
+            a, b = self.int_of(f, e.left, env, me, depth), self.int_of(f, e.right, env, me, depth)
+            return a + b if isinstance(e.op, ast.Add) else a - b
+        if isinstance(e, ast.Constant) and isinstance(e.value, int) and not isinstance(e.value, bool):
+            return e.value
+        if isinstance(e, (ast.Call, ast.Name)):
+            v = self.ev(f, e, env, me, depth)
+            if isinstance(v, int) and not isinstance(v, bool):
+                return v
+        raise self.unknown(f, e, 'is not a position the evaluator can compute')
+
+    def call(self, f, c: ast.Call, env, me, depth):
+        if c.keywords:
+            raise self.unknown(f, c, 'uses keyword arguments')
+        fn = c.func
+        q = self.p.resolve_expr(f.module, fn, f)
+        if isinstance(fn, ast.Attribute) and q is None and fn.attr in ('append', 'insert') and c.args and not isinstance(c.args[-1], ast.Starred) \
+                and not self.tracked(f, c.args[-1], env) and not isinstance(self.p.callee(f, c), Func):
+            # registration inlined next to the rebuild: the inserted entry is a fresh token of the list it goes into
+            recv = self.ev(f, fn.value, env, me, depth)
+            if isinstance(recv, list):
+                self.fresh += 1
+                tok = '%s+%d' % ('s' if recv is self.state[SINKS] else 't' if recv is self.state[STATICS] else 'x', self.fresh)
+                if fn.attr == 'append' and len(c.args) == 1:
+                    recv.append(tok)
+                    return None
+                if fn.attr == 'insert' and len(c.args) == 2:
+                    recv.insert(self.int_of(f, c.args[0], env, me, depth), tok)
+                    return None
+            raise self.unknown(f, c, 'is a method call on a registration list the evaluator does not read')
+        args: List[object] = []
+        for a in c.args:
+            if isinstance(a, ast.Starred):
+                v = self.ev(f, a.value, env, me, depth)
+                if not isinstance(v, (list, tuple)):
+                    raise self.unknown(f, c)
+                args.extend(v)
+            else:
+                args.append(self.ev(f, a, env, me, depth))
+        if q in ('builtins.list', 'builtins.tuple') and len(args) <= 1:
+            if args and not isinstance(args[0], (list, tuple)):
+                raise self.unknown(f, c)
+            return (list if q.endswith('list') else tuple)(args[0] if args else ())
+        if q == 'builtins.reversed' and len(args) == 1 and isinstance(args[0], (list, tuple)):
+            return list(reversed(args[0]))          # (an iterator; read once by every form the evaluator accepts)
+        if q == 'builtins.bool' and len(args) == 1:
+            return bool(args[0])
+        if q == 'builtins.len' and len(args) == 1 and isinstance(args[0], (list, tuple)):
+            return len(args[0])
+        if q in _CHAIN and all(isinstance(a, (list, tuple)) for a in args):
+            out: List[object] = []
+            for a in args:
+                out.extend(a)
+            return out
+        if isinstance(fn, ast.Attribute):
+            g = self.p.callee(f, c)
+            if not isinstance(g, Func) and q is None:
+                recv = self.ev(f, fn.value, env, me, depth)
+                m = fn.attr
+                if isinstance(recv, list):
+                    if m == 'reverse' and not args:
+                        recv.reverse()
+                        return None
+                    if m == 'extend' and len(args) == 1 and isinstance(args[0], (list, tuple)):
+                        recv.extend(args[0])
+                        return None
+                    if m == 'append' and len(args) == 1:
+                        recv.append(args[0])
+                        return None
+                    if m == 'insert' and len(args) == 2 and isinstance(args[0], int):
+                        recv.insert(args[0], args[1])
+                        return None
+                    if m == 'copy' and not args:
+                        return list(recv)
+                raise self.unknown(f, c, 'is a method call on a registration list the evaluator does not read')
+        g = self.p.callee(f, c)
+        if isinstance(g, Func) and g is not f:
+            return self.run(g, args, depth + 1)
+        raise self.unknown(f, c, 'is a call the evaluator of the table rebuild does not read')
+
+
+def _rebuilt_table(t: 'Tables', g: Func, flag: bool, sinks: List[str], statics: List[str]):
+    """-> (table as a tuple of tokens, store statement, function of the store,
+    final sinks list, final static list) of rebuilder g for one option value."""
+    ev = RebuildEval(t.p, {SINKS: list(sinks), STATICS: list(statics)}, flag)
+    ev.run(g)
+    if ev.table is None:
+        raise UnknownIdiom('%s: no store of %s on the path evaluated for %s=%s' % (g.qual, TABLE, FLAG[1:], flag))
+    if not isinstance(ev.table, (list, tuple)) or not all(isinstance(x, str) for x in ev.table):
+        raise UnknownIdiom('%s: %s does not store a sequence of entries' % (g.qual, short(ev.table_stmt, 80)))
+    base = set(sinks) | set(statics)
+    final = [[x for x in ev.state[k] if x in base] if isinstance(ev.state[k], (list, tuple)) else ev.state[k] for k in (SINKS, STATICS)]
+    return tuple(ev.table), ev.table_stmt, ev.table_func, final[0], final[1]
+
+
+def _mode_tag(stmt_by_mode: Dict[bool, ast.AST], flag: bool) -> str:
+    """construct text of the store executed in one mode; tagged with the mode
+    when both modes run the same statement."""
+    txt = short(stmt_by_mode[flag], 110)
+    if stmt_by_mode.get(True) is stmt_by_mode.get(False):
+        txt += ' [%s=%s]' % (FLAG[1:], flag)
+    return txt
 
 
 def r2_recency(run):
+    """The dispatcher sees the entries of each registration list newest-first,
+    for BOTH values of sink_before_static_route.  Decided by abstract
+    evaluation: the function that rebuilds `_sink_and_static_routes` is run on
+    symbolic lists sinks=[s1,s2], static=[t1,t2] (list concatenation, tuple() /
+    list() / reversed(), .reverse(), [::-1], conditional expressions, if/else on
+    the option, same-module helpers); with head insertion and a forward scan
+    the table must read (s1,s2,t1,t2) / (t1,t2,s1,s2) - per list: the entry the
+    insertion site makes the newer one comes first (a tail insertion is fine
+    when the rebuild or the scan reverses it back).  The rebuild only reads the
+    lists.  Registration (add_sink / add_static_route and their callees) always
+    inserts and never removes an entry.
+    W: App(sink_before_static_route=False) whose rebuild is
+    `routes = sinks + static; routes.reverse()`: add_static_route('/files', A);
+    add_static_route('/files/archive', B); GET /files/archive/x is served from A."""
     t = _tables(run)
     d = _dispatch(run)
     p = t.p
@@ -506,36 +886,71 @@ def r2_recency(run):
             run.fail('registration stores an entry of %s at an existing position instead of inserting it as the newest entry' % which, f, n,
                      runtime_witness='add_sink(s0, "/a"); add_sink(s1, "/a/b"); add_sink(s2, "/a"); GET /a/b is answered by s1 although s2 is the most recently added matching sink')
             t.other_writes.remove((which, f, n))
+    _registration_never_removes(run, t)
     for (which, f, n) in t.other_writes:
+        if f.qual in t.rebuilders:
+            continue        # read by the abstract evaluation of the rebuild below (the lists must come out unchanged)
         raise UnknownIdiom('%s: write to %s of a form the order-polarity lattice does not cover: %s' % (f.qual, which, short(n)))
     for (f, n) in t.table_other:
         raise UnknownIdiom('%s: in-place mutation of %s: %s' % (f.qual, TABLE, short(n)))
-    consumers = []
-    for (f, stmt, v) in t.rebuild_stores:
-        if f.qual not in t.rebuilders:
-            continue
-        for (need, val) in _store_values(f, stmt, v):
-            consumers.append((f, stmt, need, dict(_concat_operands(val))))
+    # The rebuild is EVALUATED on symbolic lists [newer, older] (in the order the
+    # insertion site leaves them) for both values of the option; the dispatcher
+    # must see the newer entry of each list first.
+    for g in [t.rebuilders[q] for q in sorted(t.rebuilders)]:
+        plain = {}
+        for flag in (True, False):
+            table, stmt, sf, fs, ft = _rebuilt_table(t, g, flag, ['s1', 's2'], ['t1', 't2'])
+            plain[flag] = (table, stmt, sf)
+            run.check(fs == ['s1', 's2'] and ft == ['t1', 't2'], 'the rebuild of the combined table only reads the registration lists (it leaves their order and content as they are)',
+                      g, '%s modifies %s' % (g.node.name, SINKS if fs != ['s1', 's2'] else STATICS) if (fs != ['s1', 's2'] or ft != ['t1', 't2']) else g.node.name,
+                      where=g.loc(), witness=['%s=%s: %s [s1, s2] -> %s, %s [t1, t2] -> %s' % (FLAG[1:], flag, SINKS, fs, STATICS, ft)],
+                      runtime_witness='every second add_sink()/add_static_route() flips the order of the entries registered so far')
+        stmts = {flag: plain[flag][1] for flag in plain}
+        for (which, pol, f, call) in t.insertions:
+            if pol == 'other':
+                continue
+            base = ['s1', 's2'] if which == SINKS else ['t1', 't2']
+            newer, older = base
+            for flag in (True, False):
+                table, stmt, sf = plain[flag]
+                mode = '%s=%s' % (FLAG[1:], flag)
+                if table.count(newer) != 1 or table.count(older) != 1:
+                    run.fail('the combined table holds every entry of %s exactly once (%s)' % (which, mode), sf, '%s [%s]' % (_mode_tag(stmts, flag), which),
+                             where=sf.loc(stmt), witness=['%s: %s = [%s, %s] -> table %s' % (mode, which, newer, older, list(table))],
+                             runtime_witness='a registered sink / static route never answers, or answers in place of a newer one')
+                    continue
+                keeps = table.index(newer) < table.index(older)          # the rebuild keeps the list's own order
+                flips = (0 if pol == 'head' else 1) + (0 if keeps else 1) + (1 if loop_rev else 0)
+                what = ('entries of %s are seen newest-first by the dispatcher with %s (head insertion, or tail insertion compensated where consumed)'
+                        % (which, mode))
+                wit = ['inserted by %s: %s (%s)' % (f.qual, short(call, 80), pol),
+                       'rebuilt by %s with %s: %s = [newer, older] -> table %s' % (g.qual, mode, which, ['newer' if x == newer else 'older' if x == older else x for x in table]),
+                       'scanned by: for ... in %s' % short(d.loop.iter)]
+                rw = 'add_sink(a, "/x"); add_sink(b, "/x"): a request to /x is answered by a (the older one)'
+                if flips % 2 == 0:
+                    run.ok(what, f.loc(call), call)
+                elif pol != 'head':
+                    run.fail(what, f, call, witness=wit, runtime_witness=rw)
+                elif not keeps:
+                    run.fail(what, sf, '%s [%s]' % (_mode_tag(stmts, flag), which), where=sf.loc(stmt), witness=wit,
+                             runtime_witness='App(%s): add_static_route("/files", A); add_static_route("/files/archive", B); GET /files/archive/x is served from A '
+                                             '(the older route is matched first)' % mode)
+                else:
+                    run.fail(what, d.f, 'for %s in %s' % (short(d.loop.target), short(d.loop.iter)), where=d.f.loc(d.loop), witness=wit, runtime_witness=rw)
     for (which, pol, f, call) in t.insertions:
         if pol == 'other':
             run.fail('insertion into %s is neither at the head nor at the tail' % which, f, call,
                      runtime_witness='a newer sink/static route ranked below an older one with an overlapping prefix')
-            continue
-        for (g, stmt, need, ops) in consumers:
-            if which not in ops:
-                raise UnknownIdiom('%s: rebuild %s does not use %s' % (g.qual, short(stmt), which))
-            flips = (1 if ops[which] else 0) + (1 if loop_rev else 0)
-            eff = pol if flips % 2 == 0 else {'head': 'tail', 'tail': 'head'}[pol]
-            run.check(eff == 'head', 'entries of %s are seen newest-first by the dispatcher (head insertion, or tail insertion compensated where consumed)' % which,
-                      f, call, witness=['consumed by %s: %s' % (g.qual, short(stmt, 100)), 'scanned by: for ... in %s' % short(d.loop.iter)],
-                      runtime_witness='add_sink(a, "/x"); add_sink(b, "/x"): a request to /x is answered by a (the older one)')
     # shape of the table entries: (matcher, object, is_sink) with the constant flag
     for (which, pol, f, call) in t.insertions:
         item = call.args[-1] if isinstance(call, ast.Call) and call.args else None
         if item is None and not isinstance(call, ast.Call):
             v = call.value
-            lst = v if isinstance(v, (ast.List, ast.Tuple)) else (v.left if isinstance(v.left, (ast.List, ast.Tuple)) else v.right)
-            item = lst.elts[0] if lst.elts else None
+            if isinstance(v, ast.List) and any(isinstance(x, ast.Starred) for x in v.elts):
+                item = [x for x in v.elts if not isinstance(x, ast.Starred)][0]
+            else:
+                lst = v if isinstance(v, (ast.List, ast.Tuple)) else (v.left if isinstance(v.left, (ast.List, ast.Tuple)) else v.right)
+                item = lst.elts[0] if lst.elts else None
         if isinstance(item, ast.Name):
             ds = [x.value for x in walk_self(f.node) if isinstance(x, ast.Assign) and any(isinstance(tg, ast.Name) and tg.id == item.id for tg in x.targets)]
             if len(ds) == 1:
@@ -613,6 +1028,111 @@ def _registration_always_inserts(run, t: 'Tables'):
                                       'still served from d2 (the repeated registration kept its old rank)')
 
 
+REMOVERS = {'remove', 'pop', 'clear', '__delitem__'}
+
+
+def _registration_functions(t: 'Tables') -> Dict[str, Func]:
+    """add_sink / add_static_route (and overrides in subclasses of App) plus
+    the package functions they call, transitively (depth <= 3)."""
+    p = t.p
+    out: Dict[str, Func] = {}
+    work: List[Tuple[Func, int]] = []
+    for (name, _which) in REGISTRARS:
+        base = p.func('%s.%s' % (APP, name))
+        work.append((base, 0))
+        for cq in sorted(p.subclasses(APP)):
+            if cq != APP and name in p.classes[cq].methods:
+                work.append((p.classes[cq].methods[name], 0))
+    while work:
+        f, depth = work.pop()
+        if f.qual in out:
+            continue
+        out[f.qual] = f
+        if depth >= 3:
+            continue
+        for c in walk_no_nested(f.node):
+            if isinstance(c, ast.Call):
+                g = p.callee(f, c)
+                if isinstance(g, Func) and g.qual not in out and g.module is f.module:
+                    work.append((g, depth + 1))
+    return out
+
+
+def _filters_list(e, which: str) -> Optional[ast.AST]:
+    """The sub-expression of e that yields a SUBSET of self.<which>: a
+    comprehension over it with an `if`, filter() on it, a slice of it with a
+    bound.  None when there is none."""
+    for x in ast.walk(e):
+        if isinstance(x, (ast.ListComp, ast.GeneratorExp, ast.SetComp)):
+            for gen in x.generators:
+                if gen.ifs and any(_attr_named(y, which) for y in ast.walk(gen.iter)):
+                    return x
+        elif isinstance(x, ast.Call) and isinstance(x.func, ast.Name) and x.func.id == 'filter' and len(x.args) == 2 \
+                and any(_attr_named(y, which) for y in ast.walk(x.args[1])):
+            return x
+        elif isinstance(x, ast.Call) and dotted(x.func) in ('itertools.filterfalse', 'filterfalse', 'itertools.takewhile', 'itertools.dropwhile', 'itertools.islice') \
+                and any(_attr_named(y, which) for a in x.args for y in ast.walk(a)):
+            return x
+        elif isinstance(x, ast.Subscript) and isinstance(x.slice, ast.Slice) and _attr_named(x.value, which) and isinstance(x.ctx, ast.Load) \
+                and (x.slice.lower is not None or x.slice.upper is not None or
+                     (x.slice.step is not None and not (isinstance(x.slice.step, ast.UnaryOp) or (isinstance(x.slice.step, ast.Constant) and x.slice.step.value in (1, None))))):
+            return x
+    return None
+
+
+def _registration_never_removes(run, t: 'Tables'):
+    """Registration only ADDS: add_sink() / add_static_route() (and what they
+    call) never remove an existing entry of `_sinks` / `_static_routes` - no
+    remove()/pop()/clear()/del, no rebuild of the list through a filtering
+    comprehension, filter() or a bounded slice.  "Most recently added MATCHING
+    entry" quantifies over every entry ever registered: an older entry is still
+    the answer for each path that no newer entry matches, and no key short of
+    the matcher's whole match set (prefix text, pattern text, ...) tells that
+    there is no such path.
+    W: add_static_route('/s', d0, fallback_filename='index.html');
+    add_static_route('/s', d1) purges the first route "with the same prefix";
+    GET /s (matched only by a route WITH a fallback file) -> 404 instead of
+    d0/index.html."""
+    regs = _registration_functions(t)
+    rw = ("add_static_route('/s', d0, fallback_filename='index.html'); add_static_route('/s', d1): GET /s is matched only by the older route "
+          '(bare prefix + fallback file); once it was purged the request falls through to a sink / 404')
+    what = 'registration never removes an existing entry of %s (the list only grows): an older entry still answers every path the newer ones do not match'
+    bad_lists: Set[str] = set()
+    for (which, f, n) in list(t.other_writes):
+        if which == TABLE or f.qual not in regs:
+            continue
+        inserted = {short(c.args[-1], 200) for (w, _pol, g, c) in t.insertions if g is f and w == which and isinstance(c, ast.Call) and c.args}
+        removed: Optional[ast.AST] = None
+        if isinstance(n, ast.Delete):
+            removed = n
+        elif isinstance(n, ast.Call) and n.func.attr in REMOVERS:
+            if n.func.attr == 'remove' and len(n.args) == 1 and short(n.args[0], 200) in inserted:
+                raise UnknownIdiom('%s: %s removes an entry EQUAL to the one it inserts (re-ranking of an identical entry); not decided' % (f.qual, short(n)))
+            removed = n
+        elif isinstance(n, (ast.Assign, ast.AnnAssign, ast.AugAssign)) and n.value is not None:
+            sub = _filters_list(n.value, which)
+            if sub is not None:
+                conds = [c for gen in getattr(sub, 'generators', []) for c in gen.ifs]
+                if len(conds) == 1 and isinstance(conds[0], ast.Compare) and len(conds[0].ops) == 1 and isinstance(conds[0].ops[0], (ast.NotEq, ast.IsNot)) \
+                        and isinstance(conds[0].left, ast.Name) and short(conds[0].comparators[0], 200) in inserted:
+                    raise UnknownIdiom('%s: %s drops entries EQUAL to the one it inserts (re-ranking of an identical entry); not decided' % (f.qual, short(n)))
+                removed = n
+            else:
+                tg = (n.targets[0] if isinstance(n, ast.Assign) else n.target)
+                if isinstance(tg, ast.Subscript) and isinstance(tg.slice, ast.Slice) and isinstance(n.value, (ast.List, ast.Tuple)) and not n.value.elts:
+                    removed = n      # self.L[a:b] = []
+        if removed is None:
+            continue
+        run.fail(what % which, f, n, where=f.loc(n), runtime_witness=rw,
+                 witness=['%s is on the registration path of %s' % (f.qual, ' / '.join(name for (name, _w) in REGISTRARS))])
+        t.other_writes.remove((which, f, n))
+        bad_lists.add(which)
+    for (name, which) in REGISTRARS:
+        if which not in bad_lists:
+            run.ok('%s() and the functions it calls hold no remove / pop / clear / del / filtering rebuild of %s' % (name, which),
+                   t.p.func('%s.%s' % (APP, name)).loc(), '%s: no removal from %s' % (name, which))
+
+
 def r3_refresh(run):
     t = _tables(run)
     p = t.p
@@ -643,32 +1163,32 @@ def r3_refresh(run):
         before = flow.dominated_by_nodes(cfg, cfg.exit, good) if good else False
         run.check(only_empty and before, 'the lists start empty together with an empty combined table', f, stmt,
                   runtime_witness='a fresh App dispatching to stale fallback entries')
-    # order flag
-    stores = 0
-    for (f, stmt, v) in t.rebuild_stores:
-        if f.qual not in t.rebuilders:
-            continue
-        cfg = cfg_of(f, p)
-        run.use_cfg(cfg)
-        node = single(cfg.nodes_for(stmt), 'node', f.qual)
-        yes = _truth_edges(cfg, lambda e: _attr_named(e, FLAG), True)
-        no = _truth_edges(cfg, lambda e: _attr_named(e, FLAG), False)
-        for (need, val) in _store_values(f, stmt, v):
-            if need is None:
-                if yes and node not in flow.reachable(cfg, [cfg.entry], avoid_edges=yes):
-                    need = True
-                elif no and node not in flow.reachable(cfg, [cfg.entry], avoid_edges=no):
-                    need = False
-                else:
-                    raise UnknownIdiom('%s: rebuild %s is not under a branch of self.%s' % (f.qual, short(stmt, 80), FLAG))
-            order = [a for (a, _r) in _concat_operands(val)]
-            want = [SINKS, STATICS] if need else [STATICS, SINKS]
-            stores += 1
-            run.check(order == want, 'with %s %s the combined table lists %s first' % (FLAG[1:], 'true' if need else 'false', 'sinks' if need else 'static routes'),
-                      f, stmt if not isinstance(v, ast.IfExp) else val,
-                      runtime_witness='sink_before_static_route=%s: an overlapping %s answers instead' % (need, 'static route' if need else 'sink'))
-    if stores < 2:
-        raise AnchorError('the rebuild does not distinguish both values of %s' % FLAG)
+    # order flag: the rebuild is EVALUATED on symbolic lists for both values of
+    # the option; as seen by the dispatcher the table must list every entry once,
+    # the sinks first when the option is true and the static routes first when false
+    d = _dispatch(run)
+    it, loop_rev = _strip_seq(d.loop.iter)
+    if not _attr_named(it, TABLE):
+        raise UnknownIdiom('%s: loop iterates %s' % (GETR, short(d.loop.iter)))
+    for g in [t.rebuilders[q] for q in sorted(t.rebuilders)]:
+        res = {flag: _rebuilt_table(t, g, flag, ['s1', 's2'], ['t1', 't2']) for flag in (True, False)}
+        stmts = {flag: res[flag][1] for flag in res}
+        for flag in (True, False):
+            table, stmt, sf = res[flag][:3]
+            seen = tuple(reversed(table)) if loop_rev else table
+            groups = ''.join(x[0] for x in seen)
+            mode = '%s=%s' % (FLAG[1:], flag)
+            wit = ['%s: %s = [s1, s2], %s = [t1, t2] -> the dispatcher scans %s' % (mode, SINKS, STATICS, list(seen))]
+            run.check(sorted(x for x in seen if '+' not in x) == ['s1', 's2', 't1', 't2'], 'with %s the combined table holds every registered sink and static route exactly once' % mode,
+                      sf, '%s [complete]' % _mode_tag(stmts, flag), where=sf.loc(stmt), witness=wit,
+                      runtime_witness='a registered sink / static route never answers')
+            want = 'st' if flag else 'ts'
+            order = ''.join(c for i, c in enumerate(groups) if i == 0 or groups[i - 1] != c)
+            # (a group that is missing altogether is the completeness obligation's finding)
+            run.check(order == want or len(order) < 2,
+                      'with %s %s the combined table lists %s first' % (FLAG[1:], 'true' if flag else 'false', 'sinks' if flag else 'static routes'),
+                      sf, _mode_tag(stmts, flag), where=sf.loc(stmt), witness=wit,
+                      runtime_witness='sink_before_static_route=%s: an overlapping %s answers instead' % (flag, 'static route' if flag else 'sink'))
     # the flag is the constructor argument
     init = p.func(APP + '.__init__')
     st = [n for n in walk_self(init.node) if isinstance(n, ast.Assign) and any(is_self_attr(x, FLAG) for x in n.targets)]
@@ -1524,12 +2044,22 @@ def _match_decides_on_raw_path(run, init: Func, match: Func, pparam: str, stored
 
 def check(run):
     run.assume('router.find() returns None or a tuple whose first component is the resource (None for legacy routers that found nothing)')
-    run.assume('list.insert(0, x) / append / + / tuple() / reversed() have their standard ordering semantics; the order-polarity lattice covers exactly these forms')
+    run.assume('list.insert(0, x) / append / + / tuple() / reversed() / .reverse() / slicing have their standard ordering semantics; the rebuild of the combined '
+               'table is evaluated on symbolic two-element lists for both values of the order option')
     run.assume('sink prefixes are regular expressions whose semantics are not analysed')
     run.rule('R1', r1_route_masks, 'a route masks fallbacks; first match wins; no match selects the 404 default', floor=9)
-    run.rule('R2', r2_recency, 'sinks and static routes are seen newest-first', floor=6)
-    run.rule('R3', r3_refresh, 'derived table refreshed after every change; concatenation order follows the flag', floor=7)
+    run.rule('R2', r2_recency, 'sinks and static routes are seen newest-first in both option modes (rebuild evaluated on symbolic lists); '
+             'registration always inserts and never removes', floor=10)
+    run.rule('R3', r3_refresh, 'derived table refreshed after every change; group order follows the flag and every entry is listed once '
+             '(rebuild evaluated on symbolic lists)', floor=8)
     run.rule('R4', r4_allow, 'Allow computation for 405 and the automatic OPTIONS responder', floor=24)
     run.rule('R5', r5_suffix_kwargs, 'suffixed lookups, sink kwargs, **params', floor=10)
     run.rule('R6', r6_meta, 'meta methods rejected before any routing event', floor=15)
     run.rule('R7', r7_static_prefix, 'static route matching uses only the normalised prefix', floor=1)
+    # "a route always masks sinks and static routes" holds only while the compiled finder knows every accepted
+    # route: a finder kept across an add_route() that gave an existing intermediate node its resource sends the
+    # request to the fallbacks (shared with C01 R10)
+    from . import c01 as _c01
+
+    run.rule('R8', _c01.r10_finder_invalidated, 'every accepted add_route invalidates or rebuilds the compiled finder, so a newly added route masks the '
+             'fallbacks from its first request on (shared with C01 R10)', floor=3)
